@@ -20,7 +20,7 @@ CLAIMED = {
          "2/C11"),
  "C12": ("runtime monitor on the real janitor goroutine gated at EvictionNeeded / Stats.Add(cache_evict); amount, metric and rank-order oracle",
          "Exploration: seeded (limit, size, fraction, strategy, trigger incl. sys-memory limits, access history, long-expired entries purged by the same cycle, content arriving by Write / Dump+Restore / ExpireAll) cases; exactly one eviction cycle is let through and judged for trigger, amount (within one entry), cache_evict metric and strategy order (max rank removed <= min rank kept, ties free); plus a convergence family (free-running janitor, late writes over the limit, bounded progress). LFU cases with 4200-16200 serves per entry. Colliding key pairs on SyncMap; ExpireAll between access history and eviction (LRU/LFU ranks must survive).",
-         "Harness-side rank bookkeeping (expiry from a pre-eviction Walk, last-read order with a strictly advancing clock, read counts) is the trusted oracle; only fresh entries are read so 'served' is unambiguous.",
+         "Harness-side rank bookkeeping (expiry from a pre-eviction Walk, last-read order with a strictly advancing clock, read counts) is the trusted oracle; serves of fresh entries and - after an ExpireAll - of expired entries (stale serves) both count, as in the code under test.",
          "2/C12"),
  "C13": ("differential runtime monitor: Walk/Read of restored caches vs. source across all backend pairings and relay chains",
          "Exploration: seeded entry sets (0..400, hostile keys, nil/zero/populated registered values, no / near / far-past / far-future expiry) are dumped and restored across every pairing and relayed 1..4 times into receivers of varying configuration (Unlimited/default TTL, small count limit); every relay must equal the source; concurrent dumps of one cache must both be complete; truncated streams must yield a subset. A failing Dump may precede the real one; a volume family (9000-45000 entries) is judged against what was written.",
